@@ -531,8 +531,16 @@ def b_chr8(ip, st, args, kwargs):
     return mk(z3.StrFromCode(I(v)), 'bytes')
 
 
+def b_all_bytes(ip, st, args, kwargs):
+    """spec primitive: every byte of b equals c"""
+    b, c = args
+    if isinstance(b, bytes) and isinstance(c, int):
+        return all(x == c for x in b)
+    return mk(z3.InRe(S(b), z3.Star(z3.Re(zstr(bytes([c]))))), 'bool')
+
+
 BUILTIN_IMPL = {
-    'chr8': b_chr8,
+    'chr8': b_chr8, 'all_bytes': b_all_bytes,
     'len': b_len, 'range': b_range, 'ord': b_ord, 'chr': b_chr, 'int': b_int, 'str': b_str, 'bool': b_bool,
     'bytes': b_bytes, 'bytearray': b_bytearray, 'isinstance': b_isinstance, 'max': b_max, 'min': b_min,
     'sorted': b_sorted, 'enumerate': b_enumerate, 'list': b_list, 'tuple': b_tuple, 'dict': b_dict, 'set': b_set,
